@@ -155,6 +155,28 @@ def iso_tables(m: Model, r: Report, rid: str, what: str = "both") -> None:
         r.check(not clash, rid, f"{c.qualname}#distinct-values", f"several names share a value (later ones become aliases): {clash}", loc=c.loc)
 
 
+def sub_function_split_rule(m: Model, r: Report, rid: str) -> None:
+    """utils.sub_function_split(b) == (b & 0x7F, bit 7 of b set) for every byte value, decided by evaluating its return expression for 0..255."""
+    from sa import miniterp
+    f = m.require_function("gallia.services.uds.core.utils.sub_function_split")
+    rets = [n for n in ast.walk(f.node) if isinstance(n, ast.Return)]
+    par = f.params()[0] if f.params() else None
+    if len(rets) != 1 or par is None or not isinstance(rets[0].value, ast.Tuple) or len(rets[0].value.elts) != 2:
+        raise AnalysisError(f"{f.qualname}: expected a single `return <sub-function>, <suppress>`")
+    body = [s for s in f.node.body if not (isinstance(s, ast.Expr) and isinstance(s.value, ast.Constant))]
+    bad = []
+    for b in range(256):
+        try:
+            ret, env = miniterp.run_function(f.node, {par: b})
+            got = tuple(miniterp.eval_expr(e, env) for e in ret.value.elts) if ret is not None and isinstance(ret.value, ast.Tuple) and len(ret.value.elts) == 2 else "no pair"
+        except miniterp.Raised:
+            got = "raises"
+        if isinstance(got, str) or (got[0], bool(got[1])) != (b & 0x7F, b >= 0x80):
+            bad.append(f"{b:#04x}->{got}")
+    r.check(not bad, rid, f"{f.qualname}#bit7", f"wrong split for byte values {bad[:4]}{' ...' if len(bad) > 4 else ''}: the request then fails its own round trip and "
+            "is handled as a RawRequest (lenient matching, untyped server handling)", loc=f.loc, fact_ok="(b & 0x7F, b >= 0x80) for all 256 byte values")
+
+
 def reconnect_unsafe_rule(m: Model, r: Report, rid: str) -> None:
     """UDSClient.reconnect_unsafe always asks the transport to reconnect (no shortcut on locally kept state: a connection lost by the peer
     leaves is_closed False), hands its timeout through unchanged (None selects the transport's own retry window) and adopts the result."""
